@@ -155,7 +155,7 @@ def is_int_ty(ty):
 
 # ----------------------------------------------------------------------------- frames / state
 class Frame:
-    __slots__ = ('fn', 'body', 'L', 'bb', 'si', 'dest', 'target', 'gsubst', 'is_promoted', 'on_return', 'loops', 'arrived')
+    __slots__ = ('fn', 'body', 'L', 'bb', 'si', 'dest', 'target', 'gsubst', 'is_promoted', 'on_return', 'loops', 'arrived', 'pending')
 
     def __init__(self, fn, body, L, dest=None, target=None, gsubst=None):
         self.fn, self.body, self.L, self.bb, self.si = fn, body, L, 0, 0
@@ -163,12 +163,14 @@ class Frame:
         self.on_return = None
         self.loops = {}         # loop head bb -> record (visits, snapshot / generalised snapshot)
         self.arrived = False
+        self.pending = None     # continuation of a modelled callee that called a closure: (k(I, st, fr) -> value | CALL_PUSHED, dest, target)
 
     def clone(self):
         f = Frame(self.fn, self.body, dict(self.L), self.dest, self.target, self.gsubst)
         f.bb, f.si, f.on_return = self.bb, self.si, self.on_return
         f.loops = dict(self.loops)
         f.arrived = self.arrived
+        f.pending = self.pending
         return f
 
 
@@ -970,6 +972,20 @@ class Interp:
             if st.steps > self.opts.max_steps:
                 raise Stop('step limit')
             fr = st.frames[-1]
+            if fr.pending is not None:
+                saved = fr.pending
+                k_, dest_, target_ = saved
+                fr.pending = None
+                st.begin()
+                try:
+                    val = k_(self, st, fr)
+                except Fork:
+                    fr.pending = saved
+                    raise
+                if val is not CALL_PUSHED:
+                    self.finish_call(st, fr, dest_, target_, val)
+                st.commit()
+                continue
             if fr.arrived:
                 fr.arrived = False
                 if fr.fn is not None and fr.body is fr.fn and fr.bb in loop_heads(fr.fn):
@@ -1017,6 +1033,10 @@ class Interp:
             st.frames.pop()
             if fr.on_return is not None:
                 val = fr.on_return(self, st, val)
+            if isinstance(val, Defer):
+                caller = st.frames[-1]
+                caller.pending = (val.k, fr.dest, fr.target)
+                return None
             if len(st.frames) <= 1 or fr.dest is None:
                 return Outcome('ret', val, st)
             caller = st.frames[-1]
@@ -1311,6 +1331,8 @@ class Interp:
                     tf = self.frame_of(st, v.frame)
                     base = tf.L.get(v.local, UNINIT)
                     v = self.project(st, tf, base, v.proj)
+                elif isinstance(v, SliceVal):
+                    pass        # a slice reference stands for the slice (only its length is tracked)
                 else:
                     raise Stop('deref of %r' % (v,))
             elif isinstance(e, dict) and 'field' in e:
@@ -1344,6 +1366,12 @@ class Interp:
             elif isinstance(e, dict) and 'cindex' in e:
                 if isinstance(v, Agg):
                     v = v.fields[e['cindex']]
+                elif isinstance(v, SliceVal):
+                    if getattr(self.opts, 'byte_positions', False) and not e.get('from_end'):
+                        from .models import byte_at, deref as _deref
+                        v = _deref(self, st, byte_at(self, st, self.mk(st, 'usize', padd(v.len.p, pconst(e['cindex']), -1), 0, None)))
+                    else:
+                        v = st.fresh('u8', 0, 255, 'byte')      # content of a slice of unknown bytes (the bounds check is a separate assert)
                 else:
                     raise Stop('cindex into %r' % (v,))
             else:
@@ -1380,6 +1408,18 @@ class Interp:
             raise Stop('field store into %r' % (base,))
         if isinstance(e, dict) and 'downcast' in e:
             return self.updated(st, fr, base, proj[1:], val)
+        if isinstance(e, dict) and ('cindex' in e or 'index' in e):
+            if 'cindex' in e:
+                i = e['cindex']
+            else:
+                idx = fr.L.get(e['index'])
+                lo, hi = st.itv(idx) if isinstance(idx, Int) else (0, -1)
+                if lo != hi:
+                    raise Stop('store at a symbolic index')
+                i = lo
+            if isinstance(base, Agg) and base.kind == 'array' and 0 <= i < len(base.fields):
+                return base.with_field(i, self.updated(st, fr, base.fields[i], proj[1:], val))
+            raise Stop('indexed store into %r' % (base,))
         raise Stop('store projection %r' % (e,))
 
     # ------------------------------------------------------------ operands
@@ -1504,6 +1544,12 @@ class Interp:
             if isinstance(k, dict) and 'closure' in k:
                 return Agg('closure:' + k['closure'], None, ops)
             raise Stop('aggregate %r' % (k,))
+        if 'repeat' in rv:
+            n = int(rv.get('n', -1))
+            if not 0 <= n <= 256:
+                raise Stop('array repeat of length %s' % rv.get('n'))
+            v = self.operand(st, fr, rv['repeat'])
+            return Agg('array', None, [v] * n)
         if 'binop' in rv:
             a = self.operand(st, fr, rv['l'])
             b = self.operand(st, fr, rv['r'])
@@ -1527,6 +1573,21 @@ class Interp:
                 return Ref(base.frame, base.local, list(base.proj) + [self.freeze_proj(st, fr, e) for e in proj[1:]])
             if isinstance(base, (SliceVal, Opaque)) and len(proj) == 1:
                 return base
+            if isinstance(base, SliceVal) and len(proj) == 2 and isinstance(proj[1], dict) and 'cindex' in proj[1] and not proj[1].get('from_end'):
+                # &s[k]: a reference to one element (the bounds check is a separate assert)
+                from .models import byte_at, _fresh_byte_ref
+                if getattr(self.opts, 'byte_positions', False):
+                    return byte_at(self, st, self.mk(st, 'usize', padd(base.len.p, pconst(proj[1]['cindex']), -1), 0, None))
+                return _fresh_byte_ref(self, st)
+            if isinstance(base, SliceVal) and len(proj) == 2 and isinstance(proj[1], dict) and str(proj[1].get('other', '')).startswith('Subslice'):
+                # &s[from .. len - to]   (slice patterns `[a, rest @ ..]`): only the length is tracked
+                m = re.match(r'Subslice \{ from: (\d+), to: (\d+), from_end: (true|false) \}', proj[1]['other'])
+                if m:
+                    a_, b_, fe = int(m.group(1)), int(m.group(2)), m.group(3) == 'true'
+                    newlen = padd(base.len.p, pconst(a_ + b_), -1) if fe else pconst(b_ - a_)
+                    if not st.sign(newlen) <= NONNEG:
+                        raise Stop('subslice [%d..%s%d] of a slice not known to be long enough' % (a_, 'len-' if fe else '', b_))
+                    return SliceVal(self.mk(st, 'usize', newlen, 0, None), base.tag)
             if isinstance(base, Agg) and base.kind in ('strref', 'string', 'fmtargs') and len(proj) == 1:
                 return base
             raise Stop('reborrow of %r' % (base,))
@@ -1746,6 +1807,14 @@ class Interp:
                         thr = K(2 ** (bits - k), a.ty if INT_RANGES[a.ty][1] >= 2 ** (bits - k) else 'u128')
                         xi = Int('u128', 0, 2 ** 128 - 1, X)
                         return self.compare(st, 'Lt' if op in ('Ge', 'Gt') else 'Ge', xi, thr)
+            # trailing_zeros(x) == 0  <=>  x is odd (x != 0 is implied)
+            if la is not None and la[1] == 1 and la[2] == 0 and st.atoms.desc[la[0]][0] == 'tz' and op in ('Eq', 'Ne', 'Gt') and st.itv(b) == (0, 0):
+                _, Xf, bits = st.atoms.desc[la[0]]
+                X = pthaw(Xf)
+                xi = Int('u128', 0, 2 ** 128 - 1, X)
+                if st.sign(X) <= NONNEG:
+                    r2 = self.divrem(st, 'Rem', xi, K(2, 'u128'), 'u128')
+                    return self.compare(st, 'Ne' if op == 'Eq' else 'Eq', r2, K(0, 'u128'))
             d = padd(a.p, b.p, -1)
             strue = {'Eq': ZERO, 'Ne': NONZERO, 'Lt': NEG, 'Le': NONPOS, 'Gt': POS, 'Ge': NONNEG}[op]
             # use the value intervals as well (they may be tighter than the term's)
@@ -2222,7 +2291,10 @@ class Interp:
             L = {}
             for i, a in enumerate(args):
                 L[i + 1] = a
-            # "rust-call" closures: (env, (args...)) is spread by the models; direct calls match arity
+            # "rust-call" ABI: a closure body has the parameters (env, a, b, ..) but `Fn*::call*` passes (env, (a, b, ..)): spread the tuple
+            if fn.get('kind') == 'Closure' and len(args) == 2 and isinstance(args[1], Agg) and args[1].kind == 'tuple' and len(args[1].fields) == fn['arg_count'] - 1:
+                args = [args[0]] + list(args[1].fields)
+                L = {i + 1: a for i, a in enumerate(args)}
             if len(args) != fn['arg_count']:
                 raise Stop('arity mismatch calling %s' % fid)
             nf = Frame(fn, fn, L, dest, target, gs)
@@ -2247,8 +2319,11 @@ class Interp:
         self.goto(fr, target)
         return None
 
-    def push_closure(self, st, fr, closure, cargs, dest, target, on_return=None, env_by_ref=None):
-        """invoke a closure value (Agg 'closure:<id>') or fn item with the given arguments"""
+    def push_closure(self, st, fr, closure, cargs, dest, target, on_return=None, env_by_ref=None, then=None):
+        """invoke a closure value (Agg 'closure:<id>') or fn item with the given arguments; `then(I, st, fr, result)` continues the modelled
+        callee after the closure returned, as a step of its own (it may fork or call the next closure)"""
+        if then is not None:
+            on_return = (lambda I_, st_, r, then_=then: Defer(lambda I2, st2, fr2: then_(I2, st2, fr2, r)))
         if isinstance(closure, Agg) and closure.kind.startswith('closure:'):
             cid = closure.kind[len('closure:'):]
             fn = self.db.fns[cid]
@@ -2276,6 +2351,9 @@ class Interp:
                 val = summ(self, st, list(cargs), r['fn'])
                 if on_return is not None:
                     val = on_return(self, st, val)
+                if isinstance(val, Defer):
+                    fr.pending = (val.k, dest, target)
+                    return CALL_PUSHED
                 self.finish_call(st, fr, dest, target, val)
                 return CALL_PUSHED
             fn = self.db.fns.get(r['fn'])
@@ -2290,6 +2368,12 @@ class Interp:
 
 
 CALL_PUSHED = object()
+
+
+class Defer:
+    """returned by an on_return callback: continue with k(I, st, fr) in the caller as a separate step"""
+    def __init__(self, k):
+        self.k = k
 
 
 class ByRef:
